@@ -54,6 +54,28 @@ def is_traced(code) -> bool:
     return f
 
 
+_read_lines: dict = {}       # code object -> frozenset(lineno that reads an underscore global/attribute)
+_READS = frozenset(opcode.opmap[n] for n in ("LOAD_ATTR", "LOAD_GLOBAL", "LOAD_NAME") if n in opcode.opmap)
+
+
+def _reads_of(code):
+    """lines that read a private global or attribute (process-wide configuration such as
+    pendulum._WEEK_STARTS_AT / _mock_local_timezone, lazily filled slots such as self._h):
+    the places where a second read of the same state can be separated from the first."""
+    s = _read_lines.get(code)
+    if s is None:
+        import dis
+
+        lines = set()
+        for ins in dis.get_instructions(code):
+            if ins.opcode in _READS and isinstance(ins.argval, str) and ins.argval.startswith("_") \
+                    and not ins.argval.startswith("__") and ins.positions and ins.positions.lineno:
+                lines.add(ins.positions.lineno)
+        s = frozenset(lines)
+        _read_lines[code] = s
+    return s
+
+
 def _stores_of(code):
     s = _store_lines.get(code)
     if s is None:
@@ -198,6 +220,7 @@ class Scheduler:
          {"kind":"random","p":0.3}
          {"kind":"pct","d":2,"horizon":400}
          {"kind":"sticky","p_store":0.6,"p":0.02}
+         {"kind":"reads","p_read":0.5,"p":0.02,"to_nemesis":0.7}   (pre-empt where private state is re-read)
          {"kind":"explicit","switches":[[actor,k,target],...],"fin":{actor:target}}
          {"kind":"none"}   (no pre-emption: actors run to completion in spawn order)
     """
@@ -228,6 +251,9 @@ class Scheduler:
         if self.kind == "explicit":
             self._exp = {(a, k): t for a, k, t in strategy.get("switches", [])}
             self._expfin = dict(strategy.get("fin", {}))
+        if self.kind == "reads1":
+            self._reads_seen = 0
+            self._reads_target = rng.randrange(1, max(2, int(strategy.get("reads_horizon", 12))) + 1)
         if self.kind == "pct":
             hz = max(2, int(strategy.get("horizon", 400)))
             self._pct_points = set(rng.randrange(1, hz) for _ in range(strategy.get("d", 1)))
@@ -305,6 +331,33 @@ class Scheduler:
                 r = self._runnable()
                 if len(r) > 1:
                     tgt = r[self.rng.randrange(len(r))]
+        elif kind == "reads1":
+            # exactly one targeted pre-emption: at the k-th line (over all client actors) that
+            # re-reads private state, hand over to the nemesis (else to a random other actor)
+            if code is not None and a.name != "N" and lineno in _reads_of(code):
+                self._reads_seen += 1
+                if self._reads_seen == self._reads_target:
+                    r = self._runnable()
+                    if len(r) > 1:
+                        nem = [x for x in r if x.name == "N" and x is not a]
+                        others = [x for x in r if x is not a]
+                        tgt = nem[0] if nem else others[self.rng.randrange(len(others))]
+            elif self.rng.random() < self.strategy.get("p", 0.01):
+                r = self._runnable()
+                if len(r) > 1:
+                    tgt = r[self.rng.randrange(len(r))]
+        elif kind == "reads":
+            p = self.strategy["p"]
+            if code is not None and lineno in _reads_of(code):
+                p = self.strategy["p_read"]
+            if self.rng.random() < p:
+                r = self._runnable()
+                if len(r) > 1:
+                    nem = [x for x in r if x.name == "N" and x is not a]
+                    if nem and self.rng.random() < self.strategy.get("to_nemesis", 0.7):
+                        tgt = nem[0]
+                    else:
+                        tgt = r[self.rng.randrange(len(r))]
         elif kind == "pct":
             if self.nsteps in self._pct_points:
                 self._pct_low -= 1
@@ -435,6 +488,10 @@ class Scheduler:
             first = max(self.actors, key=lambda x: (x.prio, -x.idx))
         elif self.kind == "none":
             first = self.actors[0]
+        elif self.kind in ("reads", "reads1"):
+            # a client goes first: the nemesis is to be brought in between two of its reads
+            clients = [x for x in self.actors if x.name != "N"] or self.actors
+            first = clients[self.rng.randrange(len(clients))]
         else:
             first = self.actors[self.rng.randrange(len(self.actors))]
         self.first = first.name
